@@ -371,7 +371,15 @@ func vfC19(w *vfWorld) {
 			fmt.Fprintf(&sb, "Content-Length: %d\r\n", len(body))
 		}
 		sb.WriteString("\r\n" + body)
+		if w.redis != nil && t.Prob("c19.store-trouble", 80) {
+			// the session store is in trouble for the whole of this request (every command, however often it is retried)
+			fk := vfPick(t, "c19.store-fault", []vfRedisFault{{Kind: vfRFErrBefore}, {Kind: vfRFErrAfter}, {Kind: vfRFMissing}, {Kind: vfRFOtherValue}, {Kind: vfRFTruncate, Arg: 0}, {Kind: vfRFTruncate, Arg: 7}, {Kind: vfRFCorrupt, Arg: 3}})
+			w.redis.Plan = func(ev *vfRedisEvent) vfRedisFault { return fk }
+		}
 		r := cl.Do(rep, &vfReq{RawText: sb.String(), NoJar: true, RemoteAddr: peers[t.Weighted("c19.peer", 12, 2, 2, 1, 1, 1, 1, 1, 1)], Scheme: cfg.Scheme})
+		if w.redis != nil {
+			w.redis.Plan = nil
+		}
 		if r.ParseErr != nil {
 			cs.Refused++
 			continue
